@@ -108,7 +108,9 @@ def cutKind (toks : List Tok) (k : Nat) : Option String :=
       if t.type = .EOF then none
       else if t.posAfter = k then
         let upTo := before ++ [t]
-        if depthAfter upTo > 0 then some "in-bracket"
+        if t.type = .RPAREN && (before.getLast?.map (·.type)) == some .LPAREN && (rest'.head?.map (·.type)) == some .LAMBDA then
+          some "empty-parens"      -- `()` of `() => …`
+        else if depthAfter upTo > 0 then some "in-bracket"
         else if isBinaryOp t.type then some "after-binop"
         else none
       else if t.type = .STRING && k + 1 = t.posAfter then some "in-string"      -- just before the closing quote
@@ -185,6 +187,7 @@ def runCase (prop : Prop') (inp obs : String) : CaseResult :=
         match kind with
         | some "in-string" => "unclosed-string-after-statement"
         | some "in-comment" => "unclosed-block-comment-ending-in-star-slash"
+        | some "empty-parens" => "empty-lambda-parameter-list-at-end-of-line"
         | _ => ""
   { model := modelStr, agree := modelStr == obs, stmtModel := sm, stmtImpl := si,
     tags := (match fm.res with | some r => topTags r | none => ["panic"]) ++
